@@ -21,6 +21,8 @@ MANIFEST = {
 
 
 def conv(n):
+    if isinstance(n, dict):       # a body that is one component rather than a block
+        return [stmt(n)]
     return [stmt(c) for c in n]
 
 
